@@ -178,6 +178,20 @@ theorem C02_rewritten_restores_question (e : Engines) (c : Conf) (u : Upstream) 
   rw [C01_rewrite_precedes_block e c u q hdom hf hq hrw, if_pos ⟨hcn, hips⟩]
   exact ⟨_, _, rfl, rfl, rfl, rfl, rfl, rfl, rfl, rfl⟩
 
+/-- **Only the answer section is scanned.**  Records in the authority section do
+not trigger the replacement, even if they reveal blocked names: with a clean
+answer section the upstream's message — authority section included — is what
+the client gets. -/
+theorem C02_authority_not_scanned (e : Engines) (hwf : EnginesWF e) (c : Conf) (u : Upstream) (q : Query)
+    (hdom : reserved c q = false) (hpre0 : precededByOther e c q = false)
+    (hb : blockedByRules e c q = false) (hs : serviceMayBlock e c q = false) (hob : otherBlocks e c q = false)
+    (happ : respFilterApplies e c q = true)
+    (hclean : ∀ rr ∈ u.answer, offending e c rr = false)
+    (_hns : ∃ rr ∈ u.ns, offending e c rr = true) :
+    ∃ m ql, handle e c u q = .done m [q] (some ql) ∧ m.ns = u.ns ∧ m.rcode = u.rcode ∧ ql.isFiltered = false := by
+  obtain ⟨ql, hnf, _, h⟩ := C02_clean_unchanged e hwf c u q hdom hpre0 hb hs hob happ hclean
+  exact ⟨_, ql, h, rfl, rfl, hnf⟩
+
 /-- **Cache hits are filtered like fresh answers.**  With the dnsproxy cache in
 front of the upstream, every step — hit or miss, whatever the cache holds —
 satisfies the C02 spec with respect to the (stored raw or fresh) upstream
